@@ -433,7 +433,7 @@ class Sym:
         raise EngineGap("arccos")
 
     def cbrt(self):
-        raise EngineGap("cbrt")
+        return sym_cbrt(self)
 
     def log(self):
         raise EngineGap("log")
@@ -1276,6 +1276,33 @@ def _new_sqrt_gen(s):
     R = cur()
     g = R.fresh("sqrt", arg=s)
     R.log.append(("sqrt", repr(g), repr(s)))
+    return g
+
+
+def sym_cbrt(s):
+    """real cube root (np.cbrt): generator k with k**3 == s"""
+    R = cur()
+    s = Sym.const(s) if not isinstance(s, Sym) else s
+    if isinstance(s, AbsSym):
+        s = s.resolve()
+    if s.special:
+        return s
+    if s.is_const():
+        r, i = s.const_value()
+        if i == 0:
+            sign = -1 if r < 0 else 1
+            r = abs(r)
+            n, d = r.numerator, r.denominator
+            rn, rd = round(n ** (1 / 3)), round(d ** (1 / 3))
+            if rn ** 3 == n and rd ** 3 == d:
+                return Sym.const(Fraction(sign * rn, rd))
+    if R.mode != "real" or _has_i(s.n):
+        raise EngineGap("cbrt of a complex value")
+    key = ("cbrt", s.n, s.d)
+    if key in R.memo:
+        return R.memo[key]
+    g = R.fresh("cbrt", arg=s)
+    R.memo[key] = g
     return g
 
 
